@@ -43,6 +43,19 @@ func runC08(c *Ctx) {
 					"assigned from the chosen update revision's name", "status.updateRevision is assigned from something else")
 			}
 		}
+		// or in a helper expanded into the reconcile function (its parameters are related to the caller's values by the engine)
+		for _, h := range r.Fn.Expanded() {
+			if !c.liftedAway(h) {
+				continue
+			}
+			for _, fs := range fieldStores(h.Pkg.TypesInfo, h.Decl.Body) {
+				if fs.Field == "UpdateRevision" && isNamed(fs.Owner, load.APIPkg, "StatefulSetStatus") {
+					n++
+					want := c.WantTerm(r.Fn, r.FI.Decl.Body.Lbrace+1, "$1.Name", r.UpdRev)
+					c.Implies(r.An.StateBefore(fs.Node), gf.FEq(r.Fn.Term(fs.Rhs), want), "C08.5-update-revision-source", h.Obj.Name()+": "+types.ExprString(fs.Base)+"."+fs.Field, fs.Node.Pos())
+				}
+			}
+		}
 		c.Floor("C08.5-update-revision-assignments", n, 1)
 	}
 }
